@@ -177,7 +177,7 @@ def s11_validation_orbits(ctx):
     rng = rng_for(ctx.seed, "S11v")
     G = gadgets()
     names = ["valid_x", "valid_y", "vnode", "multijunction", "stacked", "cuts_itself", "underlap", "overlap", "multicross", "valid_single", "double_overshoot",
-             "double_overshoot", "overshoot_vnode", "overshoot_multijunction", "overshoot_multijunction"]
+             "double_overshoot", "overshoot_vnode", "overshoot_multijunction", "overshoot_multijunction", "vchain3", "vchain3", "vchain4"]
     whats = ["order", "sym", "translate", "scale"]
     args, meta = [], []
     ident = random_g(rng, "none")
